@@ -11,6 +11,14 @@ Leg T: for the transforms whose values are not exact (scale, standardize, poly, 
        C(..., contr.poly), nested per-level state) histories (train, follow-up, row sequence,
        pickled or not) are executed and logged with a row-correspondence witness; TLC
        (Trace_Session) checks that the witnesses contain the correspondence the model requires.
+Leg H: histories of calls on ONE spec object ("any sequence of follow-up data sets"): TLC (ReuseHistory) enumerates
+       training frames whose recorded statistic is exactly zero (minimum / maximum / mean; and a frame with none) x
+       transform families (which recorded components they read) x every sequence of MaxCalls follow-up frames (row
+       sequences of the training frame: whole, without the rows at a bound, interior, only the bounds, one level,
+       reordered with a duplicate) x the call before which the spec is pickled, proves that no call depends on the
+       calls before it and that the spec is never written, refutes two seeded design errors (a zero statistic taken
+       for a missing one and refreshed in the shared spec; state relearned per call), and emits per call the rows of
+       the fit each output row equals; every spelling of the family is executed through the history and compared.
 """
 from __future__ import annotations
 
@@ -78,10 +86,110 @@ def session_record(job):
     return rec
 
 
+# gamma of the transform families of ReuseHistory: every spelling reads exactly the recorded components the family names
+HIST_GAMMA = {
+    "bounds": ["bs(a, df=4)", "bs(a, df=4, extrapolation='clip')", "bs(a, df=5, degree=2, include_intercept=True, extrapolation='extend')",
+               "cr(a, df=3)", "cc(a, df=3)", "cr(a, df=4, constraints='center')"],
+    "centre": ["center(a)", "scale(a)", "standardize(a)", "poly(a, 2)"],
+    "levels": ["A", "C(A, contr.poly)", "0 + C(A, contr.sum)"],
+    "bounds+levels": ["bs(a, df=4):A", "cr(a, df=3, extrapolation='clip'):C(A, contr.helmert)"],
+    "centre+levels": ["center(a):A", "C(A, contr.diff) + scale(a)"],
+    "bounds+centre": ["bs(a, df=4) + center(a)", "cc(a, df=3):scale(a)"],
+}
+
+
+def spec_fingerprint(spec) -> str:
+    return repr(sorted((k, repr(v)) for k, v in spec.transform_state.items())) + repr(spec.column_names) + repr(sorted((k, repr(v)) for k, v in spec.encoder_state.items()))
+
+
+def replay_history(case):
+    """one emitted history, once per spelling of its family: fit, then the calls in order on the SAME spec object (pickled and restored
+    before call pk); every call must succeed and give, row by row, the rows of the matrix of the fit the model names; the spec is never written."""
+    import pandas
+    from formulaic import model_matrix
+
+    T = pandas.DataFrame({"a": [float(v) for v in case["a"]], "A": pandas.Series(case["A"], dtype=object)})
+    bad, n = [], 0
+
+    def close(u, v):
+        return u.shape == v.shape and bool(numpy.allclose(u, v, rtol=1e-9, atol=1e-9, equal_nan=True))
+
+    for formula in HIST_GAMMA["+".join(case["family"])]:
+        base = {"formula": formula, "tr": case["tr"], "a": case["a"], "history": [c["sel"] for c in case["calls"]], "pickled_before_call": case["pk"]}
+        try:
+            fit = model_matrix(formula, T, context={})
+            spec = fit.model_spec
+            F, names, fp = numpy.asarray(fit, dtype=float), list(spec.column_names), spec_fingerprint(spec)
+        except Exception as e:  # noqa
+            bad.append({**base, "clause": "history:fit-failed", "observed": type(e).__name__ + ": " + str(e)[:120]})
+            continue
+        n += 1
+        for k, call in enumerate(case["calls"], start=1):
+            if case["pk"] == k:
+                spec = pickle.loads(pickle.dumps(spec))
+            D = T.iloc[[i - 1 for i in call["sel"]]]          # keeps the (repeated, unordered) row labels of the selection ...
+            if (k + case["tr"]) % 2:
+                D = D.reset_index(drop=True)                  # ... half of the time
+            b = {**base, "call": k, "sel": call["sel"]}
+            n += 1
+            try:
+                mm = spec.get_model_matrix(D, context={}) if (k + len(call["sel"])) % 2 else model_matrix(spec, D, context={})
+                G = numpy.asarray(mm, dtype=float)
+            except Exception as e:  # noqa
+                if call["st"] == "OK":
+                    bad.append({**b, "clause": "history:unexpected-error", "observed": type(e).__name__ + ": " + str(e)[:120]})
+                continue
+            if list(mm.model_spec.column_names) != names or G.shape != (len(call["sel"]), len(names)):
+                bad.append({**b, "clause": "history:column-names-or-shape", "observed": [list(mm.model_spec.column_names), list(G.shape)], "expected": [names, [len(call["sel"]), len(names)]]})
+                continue
+            wrong = [[i + 1, j] for i, js in enumerate(call["eq"]) for j in js if not close(G[i], F[j - 1])]
+            if wrong:
+                i, j = wrong[0]
+                bad.append({**b, "clause": "history:row-differs-from-the-row-of-the-fit", "pairs(output row, row of the fit)": wrong[:6],
+                            "observed": G[i - 1].tolist(), "expected": F[j - 1].tolist()})
+        if spec_fingerprint(spec) != fp:
+            bad.append({**base, "clause": "history:reuse-changed-the-spec"})
+    return bad, n
+
+
+def history_leg(ctx: Ctx, maxcalls: int) -> None:
+    out = workdir("c04") / "histories.ndjson"
+    out.unlink(missing_ok=True)
+    cfg = (f'SPECIFICATION Spec\nCONSTANTS\n  Variant = "recorded"\n  MaxCalls = {maxcalls}\n  PkMin = {2 if ctx.quick else 1}\n  Emit = TRUE\n'
+           "INVARIANT Frozen\nINVARIANT HistoryFree\nINVARIANT RowsOfTheFit\nINVARIANT Covering\nINVARIANT EmitCase\n")
+    r = run_tlc("ReuseHistory", cfg, tag="c04h", env={"OUT_FILE": str(out)}, timeout=3000)
+    if r.violated:
+        ctx.model_violation(r, "ReuseHistory")
+    ctx.add_tlc(r, f"histories of <= {maxcalls} replays of one spec object (zero-valued recorded statistics, follow-up frames lacking a bound / a level, "
+                   "pickling between calls): the spec is never written, no call depends on the calls before it, output rows are rows of the fit")
+    # the laws are not vacuous on the bounded family: TLC finds both seeded design errors
+    for variant in ("refresh-falsy", "relearn"):
+        v = run_tlc("ReuseHistory", cfg.replace('"recorded"', f'"{variant}"').replace("Emit = TRUE", "Emit = FALSE").replace("INVARIANT Frozen\n", ""), tag="c04h", timeout=3000)
+        if "HistoryFree" not in v.violated:
+            raise MachineryError(f"ReuseHistory variant {variant} does not violate HistoryFree: the bounded family is vacuous")
+        ctx.notes[f"history_model_variant_{variant}"] = "violates " + ",".join(v.violated)
+    cases = read_emitted(out)
+    out.unlink()
+    if len(cases) != r.distinct:
+        raise MachineryError(f"emission incomplete: {len(cases)} of {r.distinct}")
+    full = [c for c in cases if len(c["calls"]) == maxcalls]       # every shorter history is a prefix of these
+    res = pmap("harness.props.c04", "replay_history", full, chunk=40)
+    for c, (bad, n) in zip(full, res):
+        ctx.traces += n
+        ctx.evaluations += n
+        if any(len(x["sel"]) != len(c["a"]) for x in c["calls"][:-1]):
+            ctx.nontrivial.add(("H", jhash([c["tr"], c["family"], c["pk"], [x["sel"] for x in c["calls"]]])))
+        for b in bad:
+            ctx.violation({k: b.get(k) for k in ("formula", "tr", "history", "pickled_before_call", "call")} | {"clause": b["clause"]}, b, kind="replay")
+    ctx.notes["history_leg_histories"] = len(full)
+    ctx.require("history leg: histories replayed", len(full), 100)
+
+
 def run(ctx: Ctx) -> None:
     ctx.rule = ("exact leg: 3 training frames x 10 follow-up frames x 11 formulas (incl. one stateful call used twice inside one python factor) x every row sequence of length <= MaxSel over the follow-up rows, spec and "
                 "pickled spec, two entry points; relation leg: 18 formulas over the inexact built-in transforms x random histories; non-trivial = "
-                "row sequence with a duplicate or a reordering")
+                "row sequence with a duplicate or a reordering; history leg: 4 training frames (minimum / maximum / mean exactly zero, none) x 6 transform families (21 spellings) x every sequence of "
+                "MaxCalls of 7 follow-up frames x pickling between the calls (thorough: also before the first)")
     ctx.trusted = ["gamma/alpha of the materializer family", "numpy.allclose(rtol=atol=1e-9) as the row-equality predicate of the relation leg", "TLC"]
     maxsel = 2 if ctx.quick else 3
     cases = reuselib.run_model(ctx, "c04", maxsel, ["SelfReplay", "NamesFromSpecAlone", "RowLocal"])
@@ -95,6 +203,8 @@ def run(ctx: Ctx) -> None:
             ctx.violation({k: b.get(k) for k in ("formula", "t", "u", "sel", "spec", "path")} | {"clause": b["clause"]}, b, kind="replay")
     for c in [c for c in cases if c["u"] == 1 and c["sel"] == [3, 1] and c["formula"] == "A:a"][:1]:
         ctx.sample({"formula": c["formula"], "row_sequence": c["sel"], "whole": c["whole"]["cells"], "selected": c["picked"]["cells"]})
+    # ---- history leg
+    history_leg(ctx, 2 if ctx.quick else 3)
     # ---- relation leg
     rng = random.Random(97 * ctx.seed + 1)
     per = 12 if ctx.quick else 150
